@@ -8,3 +8,5 @@ mod start;
 pub use start::start;
 #[cfg(feature = "verif")]
 pub use rpc_server::verif_rpc_methods;
+#[cfg(feature = "verif")]
+pub use rpc_server::verif_rpc_methods_with_probe;
